@@ -222,30 +222,63 @@ Definition ifail_of (fails : list (Z * Z)) (gomax maxconc total : Z) (d i : Z) :
   let cf := cfactor gomax maxconc amount in
   any_l (fun f => (fst f =? d) && (snd f =? fst (piece amount cf i))) fails.
 
-Inductive case : Type :=
+(** one observed BruteForce call: settings, arguments, what came back and what the
+    recording callbacks saw *)
+Inductive call : Type :=
 (* bruteforcer.BruteForce on []bool with ApplyBitFlipsBools *)
-| CBools (gomax maxconc : Z) (data : list bool) (item_size wmin wmax : Z) (p : pred bool)
+| KBools (gomax maxconc : Z) (data : list bool) (item_size wmin wmax : Z) (p : pred bool)
          (fails : list (Z * Z))
          (res : outcome (option cand)) (robs : list (list (wobs bool))) (ninit : Z)
          (after : list bool)
 (* ... on []byte with ApplyBitFlipsBytes *)
-| CBytes (gomax maxconc : Z) (data : list Z) (item_size wmin wmax : Z) (p : pred Z)
+| KBytes (gomax maxconc : Z) (data : list Z) (item_size wmin wmax : Z) (p : pred Z)
          (fails : list (Z * Z))
          (res : outcome (option cand)) (robs : list (list (wobs Z))) (ninit : Z)
          (after : list Z).
 
-Definition check (c : case) : bool :=
+Definition check_call (c : call) : bool :=
   match c with
-  | CBools gomax maxconc data isz wmin wmax p fails res robs ninit after =>
+  | KBools gomax maxconc data isz wmin wmax p fails res robs ninit after =>
       admits flip_bools Bool.eqb (eval_pred Bool.eqb p)
              (ifail_of fails gomax maxconc (total_bits data isz)) gomax maxconc
              data isz wmin wmax robs res ninit
       && eqb_list Bool.eqb after data
-  | CBytes gomax maxconc data isz wmin wmax p fails res robs ninit after =>
+  | KBytes gomax maxconc data isz wmin wmax p fails res robs ninit after =>
       admits flip_bytes Z.eqb (eval_pred Z.eqb p)
              (ifail_of fails gomax maxconc (total_bits data isz)) gomax maxconc
              data isz wmin wmax robs res ninit
       && eqb_list Z.eqb after data
+  end.
+
+Definition call_res (c : call) : outcome (option cand) :=
+  match c with
+  | KBools _ _ _ _ _ _ _ _ res _ _ _ => res
+  | KBytes _ _ _ _ _ _ _ _ res _ _ _ => res
+  end.
+
+Inductive case : Type :=
+(* one call made by the harness process (which has made many calls before) *)
+| CBools (gomax maxconc : Z) (data : list bool) (item_size wmin wmax : Z) (p : pred bool)
+         (fails : list (Z * Z))
+         (res : outcome (option cand)) (robs : list (list (wobs bool))) (ninit : Z)
+         (after : list bool)
+| CBytes (gomax maxconc : Z) (data : list Z) (item_size wmin wmax : Z) (p : pred Z)
+         (fails : list (Z * Z))
+         (res : outcome (option cand)) (robs : list (list (wobs Z))) (ninit : Z)
+         (after : list Z)
+(* ALL BruteForce calls of one fresh process, in the order in which it made them:
+   the first one is the first use of the package in that process (Model/BruteForceProc.v).
+   Every call must be admitted by the same, state-free relation
+   (Proofs/BruteForceProc.v: [fresh_check_sound]). *)
+| CFresh (calls : list call).
+
+Definition check (c : case) : bool :=
+  match c with
+  | CBools gomax maxconc data isz wmin wmax p fails res robs ninit after =>
+      check_call (KBools gomax maxconc data isz wmin wmax p fails res robs ninit after)
+  | CBytes gomax maxconc data isz wmin wmax p fails res robs ninit after =>
+      check_call (KBytes gomax maxconc data isz wmin wmax p fails res robs ninit after)
+  | CFresh calls => negb (nil_b calls) && all_l check_call calls
   end.
 
 Definition mismatches := mismatches_by check.
